@@ -50,7 +50,7 @@ def tasks(base_seed, tier):
     out = []
     n_enum = 70 if tier == 'quick' else 900
     n_hist = 2500 if tier == 'quick' else 60000
-    tracers = c04.TRACERS_QUICK if tier == 'quick' else c04.TRACERS_THOROUGH
+    tracers = c04.TRACERS_THOROUGH       # all four styles, also in the quick tier
     for name in sorted(progs.SPECIAL):
         for tr in tracers:
             if name.startswith('recursion') or name == 'mutual_recursion':
@@ -74,8 +74,8 @@ def determinism_sample(tasks_):
 def build_history(seed, tier):
     st = seeds.streams(seed)
     rc = st[seeds.CONFIG]
-    h = histories.gen_history(st, n_ops=rc.randint(2, 8), fault_rate=0.35, threaded_rate=0.15)
-    tracers = c04.TRACERS_QUICK if tier == 'quick' else c04.TRACERS_THOROUGH
+    h = histories.gen_history(st, n_ops=rc.randint(2, 8), fault_rate=0.35, threaded_rate=0.15, nested_calls=True)
+    tracers = c04.TRACERS_THOROUGH
     tracer = rc.choice(tracers)
     return {'files': h['files'], 'ops': h['ops'], 'config': {'tracer': tracer, 'ref': True, 'ambient_trace': rc.random() < 0.3},
             'meta': {'entry': 'history', 'tracer': tracer, 'seed': seed}}
